@@ -289,6 +289,20 @@ func init() {
 				p.Ops = append(p.Ops, o)
 			}
 			p.Cfg.Extra = map[string]int64{"http_readback": 1}
+			if n%8 == 6 {
+				// several writers: judged on what each accepted update returned and on what is served at rest
+				p.Cfg.Extra = nil
+				var ops []Op
+				for _, o := range p.Ops {
+					if o.K != "jump" {
+						ops = append(ops, o)
+					}
+				}
+				p.Ops = ops
+				makeConcurrent(r, p)
+				p.Cfg.ReadBack = false // a read "right after" is meaningless with other writers around
+				return p
+			}
 			switch n % 4 {
 			case 3:
 				// SQLite with faults inside the database driver: an update that is reported accepted must still be what a read returns
